@@ -787,3 +787,27 @@ Definition pol_credit_b (t : table) (o : op) (t' : table) : bool :=
       forallb (fun e => match find_entry t' (eid e) with Some e' => checks e <=? checks e' | None => false end) (all_ents t)
   | _ => true
   end.
+
+(* (2, converse for liveness) a failed revalidation answer for an attached in-flight request must cost credit:
+   the entry's livenessChecks become floor(old / 3), and the entry is gone when that is 0 *)
+Definition failed_target (t : table) (o : op) : option entry :=
+  match o with
+  | RevalResp id false _ _ =>
+      match find (fun a : N * bool => fst a =? id) (active (gl t)) with
+      | Some (_, true) => find_entry t id
+      | _ => None
+      end
+  | _ => None
+  end.
+Definition pol_failed_credit_b (t : table) (o : op) (t' : table) : bool :=
+  match failed_target t o with
+  | Some e =>
+      if checks e / 3 =? 0 then true
+      else match find_entry t' (eid e) with Some e' => checks e' =? checks e / 3 | None => true end
+  | None => true
+  end.
+Definition pol_failed_gone_b (t : table) (o : op) (t' : table) : bool :=
+  match failed_target t o with
+  | Some e => if checks e / 3 =? 0 then negb (mem_N (eid e) (entry_ids t')) else true
+  | None => true
+  end.
